@@ -14,6 +14,12 @@ def _run(cmd, timeout=600):
     try:
         return json.loads(line), p.stderr[-500:]
     except Exception:
+        if p.returncode < 0 or p.returncode in (101, 134, 137, 139):
+            # the replay process itself was killed (abort, allocation failure, stack overflow, signal) while evaluating the real
+            # code: "never fail" is violated. The last `TRYING <input>` line on stderr names the input.
+            tries = [l for l in p.stderr.splitlines() if l.startswith('TRYING ')]
+            inp = tries[-1][7:] if tries else '<unknown input>'
+            return dict(found=True, input=inp, clause='ABORT', detail=f'the process running the real code died (status {p.returncode}) on this input: ' + p.stderr.strip().splitlines()[-1][:200] if p.stderr.strip() else 'died', tried=len(tries)), p.stderr[-300:]
         return None, (p.stdout + p.stderr)[-500:]
 
 
@@ -353,3 +359,68 @@ def cli_front_end(repo, build, log, only=None):
             where = (m.group(1) + ' ' + m.group(2)) if m else out[-160:]
             fails.append(dict(input=src, clause='panic-unreachable', detail=f'`zydeco check` did not end through the normal error path (exit {rc}): {where}'))
     return dict(found=bool(fails), failures=fails, tried=n), None
+
+
+# ---------------------------------------------------------------------------------------------------------------
+# C05: every numeric operation reached THROUGH THE SHIPPED Builtin PACKAGE (signature files, linker, routing, dispatch,
+# kernel) by a generated program run with the real command-line tool.
+
+def cli_numeric_ops(repo, build, log, only=None):
+    binp = build_cli(repo, build, log)
+    if not binp:
+        return None, 'CLI could not be built'
+    builtin = os.path.join(repo, 'lib/std/builtin.zy')
+    n = 0
+
+    def prog(tname, pkg, body):
+        return f"""begin
+  param (
+    (/numeric; /text; /system) :
+    @(import("{builtin}"))
+  ) that
+  let (Scalar = {tname}, {pkg}) = numeric/{pkg} that
+  let string = text/string that
+  let (/OS; /process) = system that
+{body}
+end
+"""
+    cases = []
+    for (tname, pkg, lo, hi) in INT_TYPES:
+        m = hi - lo + 1
+
+        def w(x):
+            return (x - lo) % m + lo
+        a, b = (hi, 3) if lo == 0 else (lo, 3)
+
+        def tdiv(x, y):
+            q = abs(x) // abs(y)
+            return q if (x >= 0) == (y >= 0) else -q
+        ops = [('add', hi, 1, w(hi + 1)), ('sub', lo, 1, w(lo - 1)), ('mul', hi, 2, w(hi * 2)), ('div', 7, 2, 3), ('mod', 7, 2, 1), ('div', a, b, tdiv(a, b)), ('mod', a, b, a - b * tdiv(a, b))]
+        for (op, x, y, want) in ops:
+            body = f'  do r <- ! ({pkg}/{op}) {x} {y};\n  do rendered <- ! ({pkg}/to_string) r;\n  ! (string/eq) OS rendered "{want}"\n    {{ ! (process/exit) 0 }}\n    {{ ! (process/exit) 3 }}'
+            cases.append((f'{pkg}:{op}:{x}:{y}', prog(tname, pkg, body), f'{pkg}/{op} {x} {y} must be {want}'))
+        for (op, x, y, want) in [('lt', lo, hi, True), ('lt', hi, lo, False), ('gt', hi, lo, True), ('gt', lo, hi, False), ('eq', hi, hi, True), ('eq', lo, hi, False)]:
+            body = f'  ! ({pkg}/{op}) OS {x} {y}\n    {{ ! (process/exit) {0 if want else 3} }}\n    {{ ! (process/exit) {3 if want else 0} }}'
+            cases.append((f'{pkg}:{op}:{x}:{y}', prog(tname, pkg, body), f'{pkg}/{op} {x} {y} must be {str(want).lower()}'))
+    for (tname, pkg) in [('Float32', 'float32'), ('Float64', 'float64')]:
+        for (op, x, y, want) in [('add', '1.5', '2.25', '3.75'), ('sub', '1.5', '2.25', '-0.75'), ('mul', '1.5', '2.0', '3'), ('div', '7.5', '2.5', '3')]:
+            body = f'  do r <- ! ({pkg}/{op}) {x} {y};\n  do rendered <- ! ({pkg}/to_string) r;\n  ! (string/eq) OS rendered "{want}"\n    {{ ! (process/exit) 0 }}\n    {{ ! (process/exit) 3 }}'
+            cases.append((f'{pkg}:{op}:{x}:{y}', prog(tname, pkg, body), f'{pkg}/{op} {x} {y} must be {want}'))
+        for (op, x, y, want) in [('lt', '1.5', '2.5', True), ('lt', '2.5', '1.5', False), ('gt', '2.5', '1.5', True), ('gt', '1.5', '2.5', False), ('eq', '1.5', '1.5', True), ('eq', '1.5', '2.5', False), ('lt', '-0.0', '0.0', False), ('gt', '0.0', '-0.0', False)]:
+            body = f'  ! ({pkg}/{op}) OS {x} {y}\n    {{ ! (process/exit) {0 if want else 3} }}\n    {{ ! (process/exit) {3 if want else 0} }}'
+            cases.append((f'{pkg}:{op}:{x}:{y}', prog(tname, pkg, body), f'{pkg}/{op} {x} {y} must be {str(want).lower()}'))
+        body = f'  do rendered <- ! ({pkg}/to_string) 0.1;\n  ! (string/eq) OS rendered "0.1"\n    {{ ! (process/exit) 0 }}\n    {{ ! (process/exit) 3 }}'
+        cases.append((f'{pkg}:to_string:0.1', prog(tname, pkg, body), f'{pkg}/to_string 0.1 must print the shortest decimal that denotes the value at that width: 0.1'))
+    for (inp, src, what) in cases:
+        if only and only != inp:
+            continue
+        n += 1
+        rc, out = cli_run(binp, build, src, 'run')
+        if rc == 0:
+            continue
+        if rc == 3:
+            return dict(found=True, input=inp, clause='PACKAGE', detail=f'through the shipped Builtin package: {what} -- it is not', tried=n), None
+        if rc == 101 or 'panicked at' in out:
+            return dict(found=True, input=inp, clause='PACKAGE', detail=f'{what}: the tool panicked: {out[-160:]}', tried=n), None
+        return dict(found=False, broken=True, tried=n, detail=f'harness program {inp} did not run (exit {rc}): {out[-200:]}'), None
+    return dict(found=False, tried=n), None
